@@ -7,6 +7,7 @@ import (
 	"os"
 	"reflect"
 	"runtime/debug"
+	"sync"
 
 	"github.com/cloudwego/eino/compose"
 	"github.com/cloudwego/eino/schema"
@@ -25,8 +26,9 @@ type runEnv struct {
 	// what the successor was handed
 	called int
 	input  reflect.Value // deep-copied snapshot (stream: merged chunks)
-	chunks int
+	chunks  int
 	mergeOK bool
+	mu      sync.Mutex
 }
 
 // obs is the observation of one run.
@@ -53,7 +55,6 @@ type inst[A, B, I any] struct{}
 
 type comp[A, B, I any] struct {
 	r     compose.Runnable[A, any]
-	env   **runEnv
 	shape string
 }
 
@@ -104,21 +105,31 @@ func catch(f func()) (pv string) {
 	return ""
 }
 
-func predLambda[In, Out any](env **runEnv, slot int) *compose.Lambda {
+type envKey struct{}
+
+// envOf: the per-run record travels in the context, so a node body still running after its run has
+// returned (the framework does not wait for parallel nodes when one fails) can never write into a later run.
+func envOf(ctx context.Context) *runEnv { return ctx.Value(envKey{}).(*runEnv) }
+
+func predLambda[In, Out any](slot int, outType string) *compose.Lambda {
 	inv := func(ctx context.Context, _ In, _ ...any) (Out, error) {
-		e := *env
+		e := envOf(ctx)
 		v := e.gens[slot]()
+		e.mu.Lock()
 		e.handed[slot] = append(e.handed[slot], v)
+		e.mu.Unlock()
 		return v.(Out), nil
 	}
 	str := func(ctx context.Context, _ In, _ ...any) (*schema.StreamReader[Out], error) {
-		e := *env
+		e := envOf(ctx)
 		v := e.gens[slot]()
 		var cs []Out
-		for _, c := range chunkValue(v) {
+		e.mu.Lock()
+		for _, c := range chunkValue(v, outType) {
 			e.handed[slot] = append(e.handed[slot], c)
 			cs = append(cs, c.(Out))
 		}
+		e.mu.Unlock()
 		return schema.StreamReaderFromArray(cs), nil
 	}
 	l, err := compose.AnyLambda[In, Out, any](inv, str, nil, nil)
@@ -128,40 +139,49 @@ func predLambda[In, Out any](env **runEnv, slot int) *compose.Lambda {
 	return l
 }
 
-func succLambda[I any](env **runEnv) *compose.Lambda {
+func succLambda[I any]() *compose.Lambda {
 	inv := func(ctx context.Context, in I, _ ...any) (any, error) {
-		e := *env
+		e := envOf(ctx)
+		e.mu.Lock()
+		defer e.mu.Unlock()
 		e.called++
 		e.chunks = 1
 		e.input = deepCopy(reflect.ValueOf(&in).Elem())
 		return "done", nil
 	}
 	col := func(ctx context.Context, sr *schema.StreamReader[I], _ ...any) (any, error) {
-		e := *env
-		e.called++
+		e := envOf(ctx)
 		defer sr.Close()
 		var acc reflect.Value
+		chunks, mergeOK := 0, true
+		var rerr error
 		for {
 			c, err := sr.Recv()
 			if err == io.EOF {
 				break
 			}
 			if err != nil {
-				return nil, err
+				rerr = err
+				break
 			}
-			e.chunks++
+			chunks++
 			cv := deepCopy(reflect.ValueOf(&c).Elem())
-			if e.chunks == 1 {
+			if chunks == 1 {
 				acc = cv
 				continue
 			}
 			var ok bool
 			acc, ok = mergeChunks(acc, cv)
-			if !ok {
-				e.mergeOK = false
-			}
+			mergeOK = mergeOK && ok
 		}
-		e.input = acc
+		e.mu.Lock()
+		defer e.mu.Unlock()
+		e.called++
+		e.chunks, e.input = chunks, acc
+		e.mergeOK = e.mergeOK && mergeOK
+		if rerr != nil {
+			return nil, rerr
+		}
 		return "done", nil
 	}
 	l, err := compose.AnyLambda[I, any, any](inv, nil, col, nil)
@@ -196,7 +216,6 @@ func mappingOf(it Item) *compose.FieldMapping {
 // build declares the workflow in the given order and compiles it. The third result is a panic out of the
 // declaration or Compile calls.
 func (inst[A, B, I]) build(p *Program, decl []Call) (c compiled, cerr error, pv string) {
-	envp := new(*runEnv)
 	var r compose.Runnable[A, any]
 	pv = catch(func() {
 		wf := compose.NewWorkflow[A, any]()
@@ -204,17 +223,17 @@ func (inst[A, B, I]) build(p *Program, decl []Call) (c compiled, cerr error, pv 
 		switch p.Shape {
 		case "S":
 		case "L":
-			wf.AddLambdaNode("L0", predLambda[A, A](envp, 0)).AddInput(compose.START)
+			wf.AddLambdaNode("L0", predLambda[A, A](0, p.Src[0])).AddInput(compose.START)
 			key[0] = "L0"
 		case "SL":
-			wf.AddLambdaNode("L1", predLambda[A, B](envp, 1)).AddInput(compose.START)
+			wf.AddLambdaNode("L1", predLambda[A, B](1, p.Src[1])).AddInput(compose.START)
 			key[1] = "L1"
 		case "LL":
-			wf.AddLambdaNode("L0", predLambda[A, A](envp, 0)).AddInput(compose.START)
-			wf.AddLambdaNode("L1", predLambda[A, B](envp, 1)).AddInput(compose.START)
+			wf.AddLambdaNode("L0", predLambda[A, A](0, p.Src[0])).AddInput(compose.START)
+			wf.AddLambdaNode("L1", predLambda[A, B](1, p.Src[1])).AddInput(compose.START)
 			key[0], key[1] = "L0", "L1"
 		}
-		s := wf.AddLambdaNode("S", succLambda[I](envp))
+		s := wf.AddLambdaNode("S", succLambda[I]())
 		for _, call := range decl {
 			if call.Static {
 				it := p.Items[call.Items[0]]
@@ -236,16 +255,15 @@ func (inst[A, B, I]) build(p *Program, decl []Call) (c compiled, cerr error, pv 
 	if pv != "" || cerr != nil {
 		return nil, cerr, pv
 	}
-	return &comp[A, B, I]{r: r, env: envp, shape: p.Shape}, nil, ""
+	return &comp[A, B, I]{r: r, shape: p.Shape}, nil, ""
 }
 
 func (c *comp[A, B, I]) run(stream bool, gens [2]func() any, srcTypes []string) (o obs) {
 	e := &runEnv{gens: gens, mergeOK: true}
-	*c.env = e
 	// START's value: predecessor slot 0 when START is a predecessor, otherwise only the trigger
 	startVal := gens[0]()
 	startIsPred := c.shape == "S" || c.shape == "SL"
-	ctx := context.Background()
+	ctx := context.WithValue(context.Background(), envKey{}, e)
 	o.Panic = catch(func() {
 		if !stream {
 			if startIsPred {
@@ -255,7 +273,11 @@ func (c *comp[A, B, I]) run(stream bool, gens [2]func() any, srcTypes []string) 
 			return
 		}
 		var cs []A
-		for _, ch := range chunkValue(startVal) {
+		startType := srcTypes[0]
+		if !startIsPred {
+			startType = "ANY" // START only triggers the lambdas here: one chunk
+		}
+		for _, ch := range chunkValue(startVal, startType) {
 			if startIsPred {
 				e.handed[0] = append(e.handed[0], ch)
 			}
@@ -278,6 +300,8 @@ func (c *comp[A, B, I]) run(stream bool, gens [2]func() any, srcTypes []string) 
 			}
 		}
 	})
+	e.mu.Lock()
+	defer e.mu.Unlock()
 	o.Called, o.Input, o.MergeOK = e.called, e.input, e.mergeOK
 	// predecessor outputs must be what they were when handed out
 	for s := 0; s < 2; s++ {
@@ -289,7 +313,7 @@ func (c *comp[A, B, I]) run(stream bool, gens [2]func() any, srcTypes []string) 
 		if len(e.handed[s]) == 1 && !stream {
 			want = []any{fresh}
 		} else {
-			want = chunkValue(fresh)
+			want = chunkValue(fresh, srcTypes[s])
 		}
 		if len(want) != len(e.handed[s]) {
 			// a predecessor ran more than once: cannot happen in these shapes
